@@ -259,11 +259,32 @@ where
             *pos += 1;
             let a = prog_eval::<D, F>(code, pos, env);
             let c = prog_eval::<D, F>(code, pos, env);
+            // 4..7: the same operator in its compound-assignment form
             match b {
                 0 => a + c,
                 1 => a - c,
                 2 => a * c,
-                _ => a / c,
+                3 => a / c,
+                4 => {
+                    let mut t = a;
+                    t += c;
+                    t
+                }
+                5 => {
+                    let mut t = a;
+                    t -= c;
+                    t
+                }
+                6 => {
+                    let mut t = a;
+                    t *= c;
+                    t
+                }
+                _ => {
+                    let mut t = a;
+                    t /= c;
+                    t
+                }
             }
         }
         4 => {
@@ -275,7 +296,27 @@ where
                 0 => a + c,
                 1 => a - c,
                 2 => a * c,
-                _ => a / c,
+                3 => a / c,
+                4 => {
+                    let mut t = a;
+                    t += c;
+                    t
+                }
+                5 => {
+                    let mut t = a;
+                    t -= c;
+                    t
+                }
+                6 => {
+                    let mut t = a;
+                    t *= c;
+                    t
+                }
+                _ => {
+                    let mut t = a;
+                    t /= c;
+                    t
+                }
             }
         }
         5 => {
